@@ -38,6 +38,10 @@ Fl(x2) == Sc("f", x2, <<>>)             \* argument is twice the float
 Bo(b)  == Sc("b", IF b THEN 2 ELSE 0, <<>>)
 St(cp) == Sc("s", 0, cp)
 
+\* TLC evaluates a function constructor lazily - on every application again.  Concatenation with the
+\* empty sequence is the identity on sequences and makes TLC build the explicit tuple once.
+Fz(sq) == sq \o <<>>
+
 Kinds    == {"z", "i", "f", "b", "s"}
 IsNum(v) == v.k \in {"i", "f", "b"}     \* isinstance(v, numbers.Number)
 
@@ -110,7 +114,7 @@ Cell(r, c) ==
     [] c = "manualSort" -> Fl(r.ms)
     [] c = "id" -> I(r.id)
 
-KeyOf(r, spec) == [j \in 1..Len(spec) |-> Cell(r, spec[j].c)]
+KeyOf(r, spec) == Fz([j \in 1..Len(spec) |-> Cell(r, spec[j].c)])
 
 Min2(a, b) == IF a <= b THEN a ELSE b
 
@@ -155,7 +159,7 @@ GroupIds(t, grp, g) == {t[i].id : i \in {i \in 1..Len(t) : grp => t[i].g = g}}
 (* The searches: linear scans.                                             *)
 (***************************************************************************)
 \* position of every record relative to the probe: -1 before, 0 equal, 1 after
-Rel(ord, pv, spec) == [i \in 1..Len(ord) |-> ValCmp(ord[i].key, pv, spec)]
+Rel(ord, pv, spec) == Fz([i \in 1..Len(ord) |-> ValCmp(ord[i].key, pv, spec)])
 
 RECURSIVE ScanFirst(_, _, _)
 ScanFirst(rel, want, i) ==
@@ -236,7 +240,7 @@ FSpec(fo) == SortSpec(fo.mode, fo.ob)
 PSpec(po) == SortSpec("order_by", po.ob)
 
 ProbeVals(fo, p) ==
-  [j \in 1..Len(fo.pr) |-> IF fo.pr[j] = "g0" THEN I(p.g0) ELSE p.q]
+  Fz([j \in 1..Len(fo.pr) |-> IF fo.pr[j] = "g0" THEN I(p.g0) ELSE p.q])
 
 \* what the find observer fo has to show for probe p on table t: <<lt, le, gt, ge, eq>>
 WantFind(t, fo, p) ==
@@ -247,20 +251,22 @@ WantPos(t, po, r) == PosAll(Ordered(t, po.gb, r.g, PSpec(po)), r.id)
 
 \* The same for all probes / all rows at once; every ordered record set is built once
 \* (per observer and group value).
+\* (group values are small naturals; OrdsOf(..)[g + 1] is the ordered record set of group value g)
 G0s(pr) == {pr[j].g0 : j \in 1..Len(pr)}
 Gs(t)   == {t[i].g : i \in 1..Len(t)}
+MaxG(G) == IF G = {} THEN 0 ELSE CHOOSE m \in G : \A x \in G : x <= m
 OrdsOf(t, grp, spec, G) ==
-  IF grp THEN [g \in G |-> Ordered(t, TRUE, g, spec)]
-  ELSE LET all == Ordered(t, FALSE, 0, spec) IN [g \in G |-> all]
+  IF grp THEN Fz([gi \in 1..(MaxG(G) + 1) |-> IF (gi - 1) \in G THEN Ordered(t, TRUE, gi - 1, spec) ELSE <<>>])
+  ELSE LET all == Ordered(t, FALSE, 0, spec) IN Fz([gi \in 1..(MaxG(G) + 1) |-> all])
 
 WantFindTable(t, fo, pr) ==
   LET spec == FSpec(fo)
       ords == OrdsOf(t, fo.grp, spec, G0s(pr))
-  IN [j \in 1..Len(pr) |-> FindAll(ords[pr[j].g0], ProbeVals(fo, pr[j]), spec)]
+  IN Fz([j \in 1..Len(pr) |-> FindAll(ords[pr[j].g0 + 1], ProbeVals(fo, pr[j]), spec)])
 
 WantPosTable(t, po) ==
   LET ords == OrdsOf(t, po.gb, PSpec(po), Gs(t))
-  IN [i \in 1..Len(t) |-> PosAll(ords[t[i].g], t[i].id)]
+  IN Fz([i \in 1..Len(t) |-> PosAll(ords[t[i].g + 1], t[i].id)])
 
 (***************************************************************************)
 (* The relation.  An observation of one table state:                       *)
@@ -270,26 +276,28 @@ WantPosTable(t, po) ==
 (*    p  |-> per position observer, per row of T: <<prev, next, rank, rank desc>>] *)
 (* every result an id / a rank, or a negative number if the formula raised *)
 (* or returned something else.  Fails(set, o) is the set of failed         *)
-(* observations [k |-> clause, o |-> observer, r |-> row, want, got].      *)
+(* observations [k |-> clause, o |-> observer, r |-> row, op |-> operation, want, got].      *)
 (***************************************************************************)
 KnownVal(v) == v.k \in Kinds
 Decidable(o) ==
   /\ \A i \in 1..Len(o.t) : KnownVal(o.t[i].s)
   /\ \A j \in 1..Len(o.pr) : KnownVal(o.pr[j].q)
   /\ \A i, j \in 1..Len(o.t) : i # j => o.t[i].id # o.t[j].id
+  /\ \A i \in 1..Len(o.t) : o.t[i].g \in 0..9
+  /\ \A j \in 1..Len(o.pr) : o.pr[j].g0 \in 0..9
 
 FindFails(set, o) ==
   LET F == FindObs(set)
-      want == [fi \in 1..Len(F) |-> WantFindTable(o.t, F[fi], o.pr)]
-  IN {[k |-> "C14.find." \o FindOps[x[3]], o |-> x[1], r |-> x[2],
+      want == Fz([fi \in 1..Len(F) |-> WantFindTable(o.t, F[fi], o.pr)])
+  IN {[k |-> "C14.find." \o FindOps[x[3]], o |-> x[1], r |-> x[2], op |-> x[3],
        want |-> want[x[1]][x[2]][x[3]], got |-> o.f[x[1]][x[2]][x[3]]] :
         x \in {x \in (1..Len(F)) \X (1..Len(o.pr)) \X (1..5) :
                  o.f[x[1]][x[2]][x[3]] # want[x[1]][x[2]][x[3]]}}
 
 PosFails(set, o) ==
   LET P == PosObs(set)
-      want == [pi \in 1..Len(P) |-> WantPosTable(o.t, P[pi])]
-  IN {[k |-> "C14." \o PosOps[x[3]], o |-> x[1], r |-> x[2],
+      want == Fz([pi \in 1..Len(P) |-> WantPosTable(o.t, P[pi])])
+  IN {[k |-> "C14." \o PosOps[x[3]], o |-> x[1], r |-> x[2], op |-> x[3],
        want |-> want[x[1]][x[2]][x[3]], got |-> o.p[x[1]][x[2]][x[3]]] :
         x \in {x \in (1..Len(P)) \X (1..Len(o.t)) \X (1..4) :
                  o.p[x[1]][x[2]][x[3]] # want[x[1]][x[2]][x[3]]}}
@@ -352,13 +360,13 @@ Ref(set, t, pr) ==
   LET F == FindObs(set)
       P == PosObs(set)
   IN [t |-> t, pr |-> pr,
-      f |-> [fi \in 1..Len(F) |->
+      f |-> Fz([fi \in 1..Len(F) |->
                LET spec == FSpec(F[fi])
                    ords == OrdsOf(t, F[fi].grp, spec, G0s(pr))
-               IN [j \in 1..Len(pr) |-> RefFindAll(ords[pr[j].g0], ProbeVals(F[fi], pr[j]), spec)]],
-      p |-> [pi \in 1..Len(P) |->
+               IN Fz([j \in 1..Len(pr) |-> RefFindAll(ords[pr[j].g0 + 1], ProbeVals(F[fi], pr[j]), spec)])]),
+      p |-> Fz([pi \in 1..Len(P) |->
                LET spec == PSpec(P[pi])
                    ords == OrdsOf(t, P[pi].gb, spec, Gs(t))
-               IN [i \in 1..Len(t) |-> RefPosAll(ords[t[i].g], Rec(t[i], spec), spec)]]]
+               IN Fz([i \in 1..Len(t) |-> RefPosAll(ords[t[i].g + 1], Rec(t[i], spec), spec)])])]
 
 =============================================================================
